@@ -274,19 +274,27 @@ CLAIMED = {
              "fenced epochs are rejected. The one obligation the code does not guarantee, 'no failed batch at commit', is "
              "refuted with a trace of the real producer (known finding, same root cause as C16). Liveness under retriable "
              "faults is model-level, by variant (partial). The real producer runs under the deterministic simulator with "
-             "concurrent sends, offsets, fault, coordinator-move and kill schedules; every trace must be accepted inside Coq "
+             "concurrent sends, offsets, fault, coordinator-move and kill schedules, and commit/abort issued while send() calls "
+             "are parked in the accumulator; every trace must be accepted inside Coq "
              "with equal logs and outcomes, and independent monitors (a reference read-committed reader, coordinator-side "
              "and leader-side protocol checks, liveness) state the property on the simulated cluster.",
         note="Trusted: Coq kernel; hand model tied by trace acceptance; simulated coordinator and leaders (reviewed against "
              "Kafka semantics) as oracle; observation wrappers; model guards (sender stops after a fatal error; no fatal "
              "before a pid); one scheduler order per schedule. Atomicity carries obligations 2-4 as hypotheses, of which 3 "
-             "and 4 are monitored on every run and 2 is the known finding. No axioms.",
+             "and 4 are monitored on every run and 2 is the known finding. A send() refused by the client has no model event "
+             "and is checked by a monitor on the logs. No axioms.",
         technique="Coq invariant proofs over a multi-party LTS + trace acceptance of the real producer under deterministic simulation with fault and kill injection + monitors",
         design="5/C07"),
     "C16": dict(
         text="Machine-checked proof (Coq 8.16, no axioms) over an executable model of the transactional API (state, "
              "registered partitions/group, per-handler error classification), with TransactionState.is_transition_valid "
-             "translated from source on every run. Proved: illegal calls have no effect and send nothing; legal calls are "
+             "translated from source on every run and pinned to a hand-written table of required / permitted transitions, and "
+             "with the error dispatch of the five transactional response handlers translated from sender.py on every run: the "
+             "model's per-handler classification is proved equal to the source's for every error code of the model, fencing "
+             "and transactional-id authorization are fatal, topic/group authorization abortable, and for every integer code an "
+             "unnamed error is fatal. Calls include sends whose delivery future is not awaited, so that an abortable error can "
+             "arrive while COMMITTING / ABORTING: commit / abort then raise it, what was registered is kept and the waiting "
+             "batches are failed and never produced. Proved: illegal calls have no effect and send nothing; legal calls are "
              "not refused; the protocol order is accepted; ABORTABLE_ERROR is entered only by abortable-class errors, keeps "
              "what is registered and is left only through abort, which sends EndTxn(ABORT) iff something is registered; "
              "FATAL_ERROR is absorbing and entered only by fatal-class errors; the model refines a 7-state specification "
@@ -295,9 +303,12 @@ CLAIMED = {
              "deterministic simulator on exhaustive short call programs, single faults at every request position, and "
              "scripted and random programs; each run must equal the model evaluated inside Coq (results, requests, state), "
              "and independent monitors state the property on the coordinator.",
-        note="Trusted: Coq kernel; py2gallina for the transition table (validated per run); hand model tied by program "
-             "equality; simulated transaction coordinator; wrappers installed from outside. Sequential API calls only "
-             "(concurrency is C07). No axioms.",
+        note="Trusted: Coq kernel; py2gallina for the transition table and dispatch2gallina for the handlers (both validated "
+             "per run against the real code); hand model tied by program equality (results, requests, state, registered set, "
+             "stored error, awaited-future outcomes); simulated transaction coordinator; wrappers installed from outside; the "
+             "specification tables (spec_must / spec_may, error classes) are hand-written from KIP-98 and the Java client. "
+             "Sequential API calls only (task-level concurrency is C07); programs with nowait sends run on a one-broker "
+             "cluster; send_offsets_to_transaction is always awaited. No axioms.",
         technique="Coq proofs by finite vm_compute sweeps + refinement of a spec automaton + program-level correspondence under deterministic simulation + monitors",
         design="5/C16"),
 }
